@@ -736,6 +736,132 @@ def build(arg):
     return T
 """
 
+# std.Reset wrapped around a PORT, the opposite polarity requested at architecture level (inverter signal + block);
+# the derived entity shares the port objects of its base class
+MODULES["rstinv"] = HEADER + """
+class Timer(Entity):
+    clk = Port.input(Bit)
+    rst_n = Port.input(Bit)
+    rst_h = Port.input(Bit)
+    enable = Port.input(Bit)
+    busy = Port.output(Bit, default=False)
+    idle = Port.output(Bit, default=False)
+    count = Port.output(Unsigned[4], default=0)
+
+    def architecture(self):
+        clk = std.Clock(self.clk)
+        reset = std.Reset(self.rst_n, active_low=True)
+        clear = reset.active_high_signal()
+        other = std.Reset(self.rst_h).active_low_signal()
+
+        @std.sequential(clk, reset)
+        def proc_count():
+            if self.enable:
+                self.count <<= self.count + 1
+
+        @std.concurrent
+        def logic_busy():
+            self.busy <<= self.enable & ~clear
+            self.idle <<= other & ~self.enable
+
+class TimerWithFlag(Timer):
+    flag = Port.output(Bit, default=False)
+
+    def architecture(self):
+        Timer.architecture(self)
+
+        @std.concurrent
+        def logic_flag():
+            self.flag <<= self.count[3]
+
+def build(arg):
+    return TimerWithFlag if arg == "derived" else Timer
+"""
+
+# many local closures decorated with cohdl.expr_fn (garbage after the build) ...
+MODULES["exprfn"] = HEADER + """
+class T(Entity):
+    clk = Port.input(Bit)
+    req = Port.input(BitVector[8])
+    mask = Port.input(BitVector[8])
+    grant = Port.output(BitVector[8], default=cohdl.Null)
+
+    def architecture(self):
+        clk = std.Clock(self.clk)
+        grants = [Signal[Bit](False, name=f"grant_{ch}") for ch in range(8)]
+
+        for ch in range(8):
+
+            def channel(ch=ch):
+                @cohdl.expr_fn
+                def requested():
+                    return self.req[ch] & ~self.mask[ch]
+
+                @cohdl.expr_fn
+                def released():
+                    return ~self.req[ch]
+
+                @std.sequential(clk)
+                async def proc():
+                    await requested()
+                    grants[ch] <<= True
+                    await released()
+                    grants[ch] <<= False
+
+            channel()
+
+        @std.concurrent
+        def logic():
+            self.grant <<= std.concat(*grants[::-1])
+
+def build(arg):
+    return T
+"""
+
+# ... and a design that awaits PLAIN local helpers with a side effect (executed once, only the result is awaited)
+MODULES["plainawait"] = HEADER + """
+class T(Entity):
+    clk = Port.input(Bit)
+    start = Port.input(Bit)
+    ack = Port.input(Bit)
+    ready = Port.input(Bit)
+    req = Port.output(Bit, default=False)
+    valid = Port.output(Bit, default=False)
+    last = Port.output(Bit, default=False)
+    done = Port.output(Bit, default=False)
+
+    def architecture(self):
+        clk = std.Clock(self.clk)
+
+        def request():
+            self.req ^= True
+            return self.ack
+
+        def send():
+            self.valid ^= True
+            return self.ready
+
+        def finish():
+            self.last ^= True
+            return self.ack
+
+        def again():
+            self.req ^= True
+            return self.ready
+
+        @std.sequential(clk)
+        async def proc():
+            await self.start
+            await request()
+            await send()
+            await finish()
+            await again()
+            self.done ^= True
+
+def build(arg):
+    return T
+"""
+
 # names that collide (case-insensitively, with reserved words, with each other across scopes)
 MODULES["names"] = HEADER + """
 class T(Entity):
@@ -1091,6 +1217,10 @@ LETTERS: dict[str, tuple] = {
     "portinit": ("portinit", None, "accept", "Signals initialised from a port's Python value (sub-entity input, assigned output)"),
     "popcnt_set": ("popcnt_set", None, "accept", "std.count_set_bits on widths 3 and 7, std.one_hot(4), std.is_one_hot"),
     "popcnt_clear": ("popcnt_clear", None, "accept", "std.count_clear_bits on the same widths, std.one_hot(6), std.is_one_hot"),
+    "rstinv": ("rstinv", None, "accept", "std.Reset around ports, opposite polarity requested at architecture level"),
+    "rstinv_d": ("rstinv", "derived", "accept", "derived entity sharing the port objects of rstinv's class"),
+    "exprfn": ("exprfn", None, "accept", "16 local closures decorated with cohdl.expr_fn, awaited"),
+    "plainawait": ("plainawait", None, "accept", "coroutine awaiting four plain local helpers with side effects"),
     "names": ("names", None, "accept", "colliding / reserved / case-different names"),
     "exitcoro": ("exitcoro", None, "accept", "sub-entities with coroutines + cohdl.always, cohdl.on_block_exit handlers"),
     "rej_dyn": ("dyn", "fail", "reject", "same class as dyn_a/dyn_b: adds a dynamic port, then architecture() raises"),
